@@ -21,6 +21,7 @@ import numpy as np
 from xpmc import hydro, lattice
 from xpmc import x_c05_catalog as cat
 from xpmc import x_c20_restrictions as rc
+from xpmc import x_c20_families as xf
 from xpmc.engine import Digest, jsonable
 
 ID = "C20"
@@ -39,8 +40,9 @@ LEVEL_NOTE = ("trusted: the hand transcription of the documentation into xpmc/x_
               "xpmc/x_c05_catalog.py / xpmc/hydro*.py, numpy.isfinite; assumed: restrictions the documentation does not state are not demanded; "
               "violating values other than the listed ones behave like them; in-domain absence of NaN is decided only on the lattice points "
               "and parameter vectors enumerated")
-BOUND = {"quick": "all catalogue words (depth <= 2); in-domain K=1 deviations of every hydro family + default/geometry variants of all classes",
-         "thorough": "quick + in-domain K=2 deviations of the cheap hydro families"}
+BOUND = {"quick": "all catalogue words (depth <= 2); in-domain K=1 deviations of every hydro family, K=2 of the cheap non-hydro families "
+                  "(heat, Blake, burn-time; K=1 for the costlier ones) + default/geometry variants of all classes",
+         "thorough": "quick + in-domain K=2 deviations of the cheap hydro families, K=3 of the cheap non-hydro families"}
 RULE = ("tasks = one per (restriction, class), per class with a geometry help string, per (domain restriction, class), per in-domain "
         "configuration; a case is one operation word; an evaluation is one public solver call; a word is non-trivial when the "
         "constructor/call under test was actually reached (the parameter exists on that class) and, for in-domain words, the call returned "
@@ -49,11 +51,12 @@ ASSUMPTIONS = [
     "only documented restrictions are demanded; restrictions documented as a warning only (Cog4/Cog12 gamma < 1, alpha/beta ranges, Blake pressure scale) are counted, not judged",
     "a boundary value must be rejected only where the documentation says strictly (>, <, 'positive', 'open interval')",
     "a ValueError raised from the first call instead of the constructor is reported as a (low-severity) violation with outcome 'late-ValueError' because the statement says 'at construction'",
-    "an in-domain call that raises ValueError or an exception class defined by exactpack itself (IterationError) is loud and is counted, not judged; any other exception type is an unhandled crash and a violation",
+    "an in-domain request that is refused with a deliberate exception (ValueError, RuntimeError 'failed to converge', exactpack's IterationError) is loud and is counted, not judged; a programming-error exception (TypeError, ZeroDivisionError, IndexError, KeyError, NameError/UnboundLocalError, AttributeError, AssertionError, OverflowError) is a violation",
     "in-domain lattices avoid r = 0 and the exact positions of discontinuities except through the straddling points of xpmc.hydro.sample_points",
 ]
 
 K = {"quick": 1, "thorough": 2}
+KX = {"quick": 2, "thorough": 3}        # the extra (non-hydro) closed-form families are cheap: one more deviation
 
 
 def preimport():
@@ -85,6 +88,10 @@ def tasks(tier, seed):
         k = K[tier] if f["cost"] == "cheap" else 1
         for dev in lattice.enumerate_checked(f["alphabet"], k):
             out.append({"kind": "family", "family": f["name"], "dev": dev})
+    for f in xf.EXTRA:
+        k = KX[tier] if f["cost"] == "cheap" else K[tier]
+        for dev in lattice.enumerate_checked(f["alphabet"], k):
+            out.append({"kind": "xfamily", "family": f["name"], "dev": dev})
     return out
 
 
@@ -117,10 +124,15 @@ class Ctx:
         return self.res
 
 
+CRASH = (TypeError, ZeroDivisionError, IndexError, KeyError, NameError, AttributeError, AssertionError, RecursionError, OverflowError)
+
+
 def loud(ex):
-    """A deliberate rejection: ValueError, or an exception class that exactpack defines itself (e.g. the Newton solver's
-    IterationError).  Everything else (TypeError, ZeroDivisionError, IndexError, NameError, ...) is an unhandled crash."""
-    return isinstance(ex, ValueError) or type(ex).__module__.startswith("exactpack")
+    """A deliberate, informative failure (ValueError, RuntimeError 'failed to converge', the library's own IterationError, ...)
+    as opposed to an unhandled programming-error exception (CRASH: TypeError, ZeroDivisionError, IndexError, KeyError,
+    NameError/UnboundLocalError, AttributeError, ...).  For a valid in-domain request only a CRASH is a violation: the
+    statement forbids NaN/inf there, and a loud refusal is neither."""
+    return not isinstance(ex, CRASH)
 
 
 def quiet_call(s, x, t):
@@ -204,6 +216,8 @@ def run_task(task):
         return run_special(task)
     if kind == "class":
         return run_class(task)
+    if kind == "xfamily":
+        return run_xfamily(task)
     return run_family(task)
 
 
@@ -529,6 +543,50 @@ def run_family(task):
         judge_indomain(cx, solver, cfg_show, sol, {}, pts=pts if len(sol) == len(pts) else None)
         if cx.res["sample"] is None:
             cx.res["sample"] = {"family": solver, "cfg": cfg_show, "t": t, "n_points": int(len(pts))}
+    return cx.done()
+
+
+def run_xfamily(task):
+    f = xf.by_name(task["family"])
+    cfg = lattice.full_cfg(f["alphabet"], task["dev"])
+    cx = Ctx()
+    solver = f["name"]
+    if f["valid"] is not None and not f["valid"](cfg):
+        cx.count("vectors_that_are_no_problem_at_all")
+        cx.dg.add("not-a-problem")
+        return cx.done()
+    cx.res["states"] += 1
+    cx.res["transitions"] += 1
+    try:
+        s, kw = xf.build(f, cfg)
+    except ValueError:
+        cx.count("inadmissible_vectors")
+        cx.dg.add("inadmissible")
+        return cx.done()
+    except Exception as ex:
+        cx.dg.add("cexc", type(ex).__name__)
+        cx.viol(solver, cfg, "indomain:construct-exception:" + type(ex).__name__, {}, detail={"message": str(ex)[:200]})
+        return cx.done()
+    for t in f["times"](cfg):
+        cx.res["states"] += 1
+        cx.res["transitions"] += 1
+        cx.res["evals"] += 1
+        P = np.asarray(f["pts"](cfg, t, s), dtype=float)
+        A = np.ascontiguousarray(P.T) if f["native"] == "dN" else P
+        try:
+            sol = quiet_call(s, A, t)
+        except Exception as ex:
+            cx.dg.add("exc", type(ex).__name__)
+            if loud(ex):
+                cx.count("indomain_call_rejected_loudly:%s:%s" % (solver, type(ex).__name__))
+            else:
+                cx.viol(solver, cfg, "indomain:exception:" + type(ex).__name__, {}, detail={"message": str(ex)[:200], "t": t})
+            continue
+        if len(sol):
+            cx.res["nontrivial"].append("%s|%s|%g" % (solver, sorted(task["dev"].items(), key=str), t))
+        judge_indomain(cx, solver, cfg, sol, {}, pts=P if len(sol) == len(P) else None)
+        if cx.res["sample"] is None:
+            cx.res["sample"] = {"family": solver, "cfg": cfg, "t": t, "n_points": int(len(P))}
     return cx.done()
 
 
